@@ -36,6 +36,9 @@ type Prog struct {
 	nPkgs  int
 	GOARCH string
 	GOOS   string
+	// adopted: helpers outside the vocabulary that fill a role no vocabulary function fills any more
+	// (the function that had the role was replaced); treated as vocabulary for the rest of the run
+	adopted map[*ssa.Function]bool
 }
 
 func pkgPath(short string) string {
